@@ -250,8 +250,12 @@ class Run:
         if self.kind in ("tridonic", "hasseb"):
             if what == "join":
                 self.traffic.setdefault(name, [])
-                self.handles[name] = d.bus_traffic.register(
-                    lambda drv, cmd, resp, err, _n=name: self.traffic[_n].append(self._traffic_item(cmd, resp, err)))
+                def deliver(drv, cmd, resp, err, _n=name):
+                    self.traffic[_n].append(self._traffic_item(cmd, resp, err))
+                    if _n.startswith("X"):
+                        # a subscriber of the application that chokes on what it is handed: its problem, nobody else's
+                        raise RuntimeError("subscriber %s cannot cope with %s" % (_n, type(cmd).__name__))
+                self.handles[name] = d.bus_traffic.register(deliver)
             else:
                 h = self.handles.pop(name, None)
                 if h:
@@ -286,7 +290,8 @@ class Run:
             class _R:
                 @staticmethod
                 def randint(a, b):
-                    return sc.get("first_seq", 1)
+                    fs = sc.get("first_seq", 1)
+                    return a if fs == "lo" else b if fs == "hi" else fs
             H.random = _R
             cls = H.tridonic if self.kind == "tridonic" else H.hasseb
             H.glob = G.FakeGlob(self.gw)
